@@ -281,4 +281,9 @@ structure BootExt where
   saveResult : Str → bootProfile → Option Err
   upgradeResult : Str → Nat → Str × Option Err
 
+structure TotpAuthExt where
+  /-- `validateUserTOTP(user, code, now)` (translated and characterised in `KM/Props/C14Go.lean`) -/
+  validate : Str → Int → Bool × Option Err
+  upgradeResult : Str → Nat → Str × Option Err
+
 end KM.GoTypes
